@@ -146,11 +146,8 @@ def main():
         cases = gen_cases(ck, limit)
     out = sg.run_cases(ck, cases, step, limit, per_shard=40)
     byid = {c["id"]: (c, r, code) for c, r, code in out}
-    n_viol = 0
     fault_hist = {}
-    for c, r, code in out:
-        if n_viol >= 5:
-            break
+    def classify(c, r, code):
         detail = {"case": c, "impl_trace": sg.pretty_trace(r), "script": sg.script_summary(c["script"])}
         healthy, faulty = c.get("healthy", []), c.get("faulty", [])
         drops = sg.dropped(r)
@@ -172,14 +169,20 @@ def main():
                                    "impl_trace": sg.pretty_trace(r0), "impl_trace_without_faulty": sg.pretty_trace(r),
                                    "with": [w.decode("latin1") for w in sg.writes_of(r0, h)],
                                    "without": [w.decode("latin1") for w in sg.writes_of(r, h)]})
-                    break
         if msg is None and code & 2:
             msg = "a healthy connection's output differs from the sequential reference of its own calls"
-            detail["model_and_spec"] = sg.show_model(ck, c, r, step, limit)
-        if msg:
+            detail["want_model"] = True
+        return msg, detail
+    n_viol = 0
+    verdicts = [(c, r, code) + classify(c, r, code) for c, r, code in out]
+    for c, r, code, msg, detail in verdicts:
+        if msg and n_viol < 5:
             n_viol += 1
+            if detail.pop("want_model", False):
+                detail["model_and_spec"] = sg.show_model(ck, c, r, step, limit)
             ck.violation(msg + " [%s]" % c["tag"], detail, tag="c%d" % c["id"])
-        elif code:
+    for c, r, code, msg, detail in verdicts:
+        if not msg and code and n_viol < 5:
             n_viol += 1
             sg.report_model_mismatch(ck, c, r, step, limit, " (healthy clients unaffected)")
     for c in cases:
